@@ -16,7 +16,7 @@ from mc import fp
 from pypika_tortoise import AliasedQuery, Database, Field, Query, Schema, Table
 from pypika_tortoise import functions as FN
 from pypika_tortoise.dialects import PostgreSQLQuery
-from pypika_tortoise.terms import Case, SystemTimeValue, Tuple
+from pypika_tortoise.terms import Criterion, Case, SystemTimeValue, Tuple
 
 PROPERTY = "C17"
 
@@ -217,6 +217,37 @@ def run_tables(case, res):
             root = any((a == s) and safe_hash(a) != safe_hash(s) for s in S)
             if not root:
                 res.violate("C17|Table|membership", "set membership disagrees with linear search", a=da, S=[d1, d2])
+    # the library's own checks that rely on membership (join validation, RETURNING validation, star selection) must
+    # treat b as "the statement's table a" exactly when a == b
+    from pypika_tortoise.dialects import PostgreSQLQuery as PGQ
+    from pypika_tortoise import Query as GQ
+
+    jj = Table("jj_other")
+    for db_, b in tabs:
+        if db_[0] != da[0]:
+            continue  # differently named tables: covered by one representative below
+        same = bool(a == b)
+        res.transitions += 3
+        try:
+            PGQ.update(a).set("c", 1).returning(Field("x", table=b))
+            ret_ok = True
+        except Exception:
+            ret_ok = False
+        try:
+            GQ.from_(a).join(jj).on(Field("x", table=b) == jj.y)
+            join_ok = True
+        except Exception:
+            join_ok = False
+        try:
+            sel = GQ.from_(a).select(a.star).select(Field("zq_x", table=b))
+            star_drops = "zq_x" not in sel.get_sql(fp.CTX["generic"])
+        except Exception:
+            star_drops = None
+        for label, got in (("returning", ret_ok), ("join", join_ok), ("star", star_drops)):
+            if got is not None and got != same:
+                res.violate("C17|Table|library-check-disagrees-with-eq|%s" % label,
+                            "the %s check treats b as %s table of the statement although a == b is %s" % (label, "the" if got else "another", same),
+                            a=da, b=db_)
     res.outcomes.append(h64(repr([bool(a == t) for _, t in tabs])))
 
 
@@ -286,6 +317,18 @@ def expr_shapes():
         ("tuple", 2, lambda f: Tuple(f[0], f[1]) == Tuple(1, 2)),
         ("neg", 2, lambda f: -f[0] + f[1]),
         ("not", 2, lambda f: ~(f[0] == f[1])),
+        # connective chains of every grouping (left-deep as &= / chained where() build them, right-deep, balanced)
+        ("and3_left", 3, lambda f: ((f[0] == 1) & (f[1] == 2)) & (f[2] == 3)),
+        ("and3_right", 3, lambda f: (f[0] == 1) & ((f[1] == 2) & (f[2] == 3))),
+        ("or4_left", 4, lambda f: (((f[0] == 1) | (f[1] == 2)) | (f[2] == 3)) | (f[3] == 4)),
+        ("and4_right", 4, lambda f: (f[0] == 1) & ((f[1] == 2) & ((f[2] == 3) & (f[3] == 4)))),
+        ("mixed4_balanced", 4, lambda f: ((f[0] == 1) & (f[1] == 2)) | ((f[2] == 3) & (f[3] == 4))),
+        ("all4", 4, lambda f: Criterion.all([f[0] == 1, f[1] == 2, f[2] == 3, f[3] == 4])),
+        ("any4", 4, lambda f: Criterion.any([f[0] == 1, f[1] == 2, f[2] == 3, f[3] == 4])),
+        ("xor3_left", 3, lambda f: ((f[0] == 1) ^ (f[1] == 2)) ^ (f[2] == 3)),
+        ("arith4_left", 4, lambda f: ((f[0] + f[1]) * f[2]) - f[3]),
+        ("arith4_right", 4, lambda f: f[0] + (f[1] * (f[2] - f[3]))),
+        ("cmp_chain", 4, lambda f: (f[0] + f[1]) == (f[2] - f[3])),
     ]
 
 
@@ -294,8 +337,9 @@ def run_exprs(case, res):
     tkeys = list(TKEYS)
     cols = ["x", "y"]
     for name, n, build in expr_shapes():
-        for combo in itertools.product(tkeys, repeat=n):
-            for colc in itertools.product(cols, repeat=n):
+        combos = itertools.product(tkeys, repeat=n) if n < 4 else itertools.permutations(["A", "B", "C", "A2", "A_s1"], 4)
+        for combo in combos:
+            for colc in (itertools.product(cols, repeat=n) if n < 4 else [("x",) * 4]):
                 if n == 3 and (len(set(colc)) > 1 or (case["tier"] == "quick" and len(set(combo)) > 2 and combo[0] not in ("A", "A_s1"))):
                     continue
                 fields = [Field(colc[i], table=mk_t(combo[i])) for i in range(n)]
